@@ -90,6 +90,20 @@ def observe(circuit, with_stim):
         st = ticks(comp.start_time)
         members = sorted(pos_of[id(o)] for o in comp.decomposed_operations())
         subcircuits.append([[[int(ch.id), ch.channel.name] for ch in comp.channel_identifiers], st, st + ticks(comp.duration), members])
+    # for every listed operation, the listed positions it is placed after by construction: the operation(s) its relation link refers to
+    # (all members when the referent is a sub-circuit or the link refers to a group); used only to tell known finding F20 (two measurements
+    # of a qubit, neither placed after the other, listed against their start-time order) from any other failure of the start-time clause
+    up = []
+    for op in ops:
+        link = op.relation_link
+        refs = list(link._reference_nodes) if isinstance(link, MultiRelationLink) else ([link.reference_node] if link.reference_node is not None else [])
+        s = set()
+        for r in refs:
+            if isinstance(r, ICircuitCompositeOperation):
+                s.update(pos_of[id(o)] for o in r.decomposed_operations() if id(o) in pos_of)
+            elif id(r) in pos_of:
+                s.add(pos_of[id(r)])
+        up.append(sorted(s))
     struct = circuit.circuit_structure
     lv = list(walk_levels(struct))
     assert len(lv) == len(ops) and all(a is b for (a, _), b in zip(lv, ops)), 'tree walk differs from decomposed_operations()'
@@ -126,7 +140,7 @@ def observe(circuit, with_stim):
         for t, name in enumerate(TAGS):
             r = circuit.get_acquisition_indices(AcquisitionTag(qubit_index=q, tag=name))   # positional: multipledispatch ignores keywords
             by_tag.append([q, t, [int(x) for x in np.asarray(r).tolist()]])
-    out = {'listing': listing, 'sched': sched, 'subcircuits': subcircuits, 'regs': regs[1:], 'meas': meas, 'by_qubit': by_qubit, 'by_tag': by_tag,
+    out = {'listing': listing, 'sched': sched, 'up': up, 'subcircuits': subcircuits, 'regs': regs[1:], 'meas': meas, 'by_qubit': by_qubit, 'by_tag': by_tag,
            'uids_consistent': uids.consistent}
     if with_stim:
         sc = to_stim(circuit).flattened()
